@@ -53,7 +53,9 @@ def build_py():
     shutil.copy(os.path.join(PY_TARGET, "release", "libpickle_fuzzer.so"), os.path.join(pkg, "pickle_fuzzer", "_native.so"))
     os.makedirs(os.path.join(pkg, "atheris"), exist_ok=True)
     open(os.path.join(pkg, "atheris", "__init__.py"), "w").write(
-        "def instrument_func(f):\n    return f\ndef Setup(*a, **k):\n    pass\ndef Fuzz():\n    pass\n")
+        # a stand-in for atheris: Setup remembers the target, Fuzz feeds it the inputs queued in INPUTS
+        "INPUTS = []\n_target = [None]\ndef instrument_func(f):\n    return f\ndef Setup(argv, f, *a, **k):\n    _target[0] = f\n"
+        "def Fuzz():\n    for d in list(INPUTS):\n        _target[0](d)\n")
     return pkg
 
 
@@ -148,6 +150,52 @@ def run_cli(binary, n, rnd, out):
                        "" if ok else " rc=%d cli_len=%d lib_len=%d cli_sha=%s lib_sha=%s" % (rc, len(got), len(want), hashlib.sha256(got).hexdigest()[:10], hashlib.sha256(want).hexdigest()[:10])))
     finally:
         shutil.rmtree(tmp, ignore_errors=True)
+
+
+def run_error_paths(binary, rnd, out):
+    """a run that cannot write its output must not report success: single-file mode and the action wrapper with an
+    output path that is a directory"""
+    script = os.path.join(REPO, "scripts", "action-run.sh")
+    for which in ("cli", "action"):
+        o = sample_options(rnd)
+        tmp = tempfile.mkdtemp(prefix="pfv-err-")
+        try:
+            f = os.path.join(tmp, "is_a_dir.pkl")
+            os.makedirs(f)
+            if which == "cli":
+                rc, so, se = sh([binary] + cli_args(o) + [f])
+            else:
+                bindir = os.path.join(tmp, "bin"); os.makedirs(bindir)
+                os.symlink(binary, os.path.join(bindir, "pickle-fuzzer"))
+                env = dict(ENV, PATH=bindir + ":" + ENV.get("PATH", ""))
+                env.update(action_env(o, outfile=f))
+                rc, so, se = sh(["bash", script], env=env, cwd=tmp)
+            ok = rc != 0
+            out.append("front %s %s unwritable_output options=%s%s" % (which, "ok" if ok else "FAIL", json.dumps(o, sort_keys=True).replace(" ", ""),
+                       "" if ok else " rc=0 although nothing could be written"))
+        finally:
+            shutil.rmtree(tmp, ignore_errors=True)
+
+
+def run_batch_errors(binary, rnd, out):
+    """"exits 0 only if all were written": one of the sample paths cannot be written (it is a directory); the tool must
+    exit non-zero, and the samples that could be written must still equal the library's bytes"""
+    for threads in (1, 16):
+        for samples, blocked in ((3, 1), (5, 4), (2, 0)):
+            o = sample_options(rnd)
+            tmp = tempfile.mkdtemp(prefix="pfv-batcherr-")
+            d = os.path.join(tmp, "out")
+            try:
+                os.makedirs(os.path.join(d, "%d.pkl" % blocked))
+                rc, so, se = sh([binary, "--dir", d, "--samples", str(samples)] + cli_args(o), env=dict(ENV, RAYON_NUM_THREADS=str(threads)))
+                want = lib_bytes(spec_case(o))
+                others = [i for i in range(samples) if i != blocked]
+                good = all(os.path.isfile(os.path.join(d, "%d.pkl" % i)) and open(os.path.join(d, "%d.pkl" % i), "rb").read() == want for i in others)
+                ok = rc != 0 and good
+                out.append("front batch %s unwritable_sample=%d threads=%d samples=%d options=%s%s" % ("ok" if ok else "FAIL", blocked, threads, samples,
+                           json.dumps(o, sort_keys=True).replace(" ", ""), "" if ok else " rc=%d (must be non-zero) other_samples_equal_library=%s" % (rc, good)))
+            finally:
+                shutil.rmtree(tmp, ignore_errors=True)
 
 
 def run_batch(binary, n, rnd, out):
@@ -335,6 +383,17 @@ for line in sys.stdin:
                 elif st[0] == "gen": res.append(bytes(g.generate()).hex())
                 elif st[0] == "genb": res.append(bytes(g.generate_from_bytes(bytes.fromhex(st[1]))).hex())
                 elif st[0] == "mut": res.append(bytes(m.mutate(bytes.fromhex(st[1]), st[2])).hex())
+                elif st[0] == "fuzz":
+                    # the bundled Atheris harness: the parser under test must be handed the library's pickle for each input
+                    import atheris
+                    from pickle_fuzzer.fuzzer import fuzz_pickle_parser
+                    seen = []
+                    atheris.INPUTS[:] = [bytes.fromhex(x) for x in st[1]]
+                    if st[2] is None:
+                        fuzz_pickle_parser(lambda b: seen.append(bytes(b)))
+                    else:
+                        fuzz_pickle_parser(lambda b: seen.append(bytes(b)), protocol=st[2], use_structure_aware=st[3])
+                    res.append("|".join(x.hex() for x in seen))
             except Exception as e:
                 res.append("EXC:" + type(e).__name__)
     except Exception as e:
@@ -373,6 +432,11 @@ def run_python_scripts(pkg, n, rnd, out):
             t["steps"] = [["mut", d, lim] for lim in (0, 1, 2, 100, 342, big)]
         else:             # alternating inputs
             t["steps"] = [["mut", d, big], ["mut", d2, big], ["mut", d, big], ["genb", d2], ["genb", d]]
+        if k % 8 == 7 and k >= 8:
+            # fuzz_pickle_parser(parser, protocol=3, use_structure_aware=True): default arguments, explicit ones, raw mode
+            ins = [d, d2, blob(0), d]
+            how = (k // 8) % 3
+            t["steps"] = [["fuzz", ins, None if how == 0 else t["protocol"], True if how != 2 else False]]
         # how the objects are constructed: keywords, positional, protocol omitted (default 3), seed omitted
         t["ctor"] = ["kw", "pos", "default-protocol", "no-seed"][(k // 8) % 4] if k >= 8 else "kw"
         if t["ctor"] == "default-protocol":
@@ -392,6 +456,16 @@ def run_python_scripts(pkg, n, rnd, out):
         for st in t["steps"]:
             if st[0] == "range": rng["g"] = (st[1], st[2])
             elif st[0] == "mrange": rng["m"] = (st[1], st[2])
+            elif st[0] == "fuzz":
+                proto = 3 if st[2] is None else st[2]
+                ws = []
+                for x in st[1]:
+                    if st[2] is not None and st[3] is False:
+                        ws.append(x)          # raw mode hands the fuzzer bytes through
+                    else:
+                        case = "id=0 P=%d unsafe=0 mu=0 ext=0 buf=0 min=60 max=300 muts=- rate=3fb999999999999a warm=0 mode=arb:%s" % (proto, x or "-")
+                        ws.append(lib_bytes(case).hex())
+                want.append("|".join(ws))
             elif st[0] in ("gen", "genb", "mut"):
                 who = "m" if st[0] == "mut" else "g"
                 mode = "rand:%d" % t["seed"] if st[0] == "gen" else "arb:%s" % (st[1] or "-")
@@ -417,7 +491,10 @@ def main():
     try:
         binary = build_cli() if set(kinds) & {"cli", "batch", "action"} else None
         if "cli" in kinds: run_cli(binary, n, rnd, out)
-        if "batch" in kinds: run_batch(binary, max(2, n // 6), rnd, out)
+        if "batch" in kinds:
+            run_batch(binary, max(2, n // 6), rnd, out)
+            run_batch_errors(binary, rnd, out)
+            run_error_paths(binary, rnd, out)
         if "action" in kinds: run_action(binary, max(3, n // 3), rnd, out)
         if "python" in kinds:
             pkg = build_py()
